@@ -98,6 +98,7 @@ type Interp struct {
 	tainted      string
 	sched        *schedState
 	goInline     bool
+	gobVals      []Value
 	seenTerm     map[*Term]bool
 	constrained  map[string]bool
 	knownFalse   map[*Term]bool
